@@ -133,6 +133,7 @@ theorem pollLoop_app (wait : Option ((Int × Int) × Nat)) : ∀ (q : List PollA
       split
       · rfl
       · exact ih _ _ _
+    | intr adv => simp only [pollLoop]; rfl
 
 theorem netSelect_app (s : State) (T) (tv : Option (Int × Int)) : netSelect (app s T) tv = app (netSelect s tv) T := by
   unfold netSelect
